@@ -123,8 +123,9 @@ structure Mat (α : Type) where
   props : List (String × Sc α)
   deriving DecidableEq, Repr
 
-/-- the `material` setter: a dictionary loses its `name` (the CALLER's dictionary does: see `dictAfterCall`), a registered material
-is re-used (and UPDATED with the other entries), anything else becomes a new `Material` -/
+/-- the `material` setter: of a dictionary the entry `name` is the material's name and the others its properties (the setter works on a
+COPY, `value = dict(value)`: the caller's dictionary stays as passed, see `dictAfterCall`), a registered material is re-used (and UPDATED
+with the other entries), anything else becomes a new `Material` -/
 def setMaterial (w : World α) (v : Val α) : Mat α :=
   match v with
   | .dict kv =>
@@ -143,11 +144,20 @@ def setMaterial (w : World α) (v : Val α) : Mat α :=
     | none => ⟨v, []⟩
   | v => ⟨v, []⟩                                 -- `Material(value)`: any object is taken as the name
 
-/-- what the caller's dictionary looks like after the call (`value.pop('name', None)` acts on the argument itself) -/
-def dictAfterCall (v : Val α) : Val α :=
+/-- what the caller's material argument looks like after the call: as passed (`value.pop('name', None)` acts on the setter's own copy) -/
+def dictAfterCall (v : Val α) : Val α := v
+
+/-- the defect class "the setter takes `name` out of the ARGUMENT ITSELF" (the tree before finding S58-C05: `value.pop('name', None)`
+without the copy): what the caller holds after such a call -/
+def dictAfterPoppingCall (v : Val α) : Val α :=
   match v with
   | .dict kv => .dict (del kv "name")
   | v => v
+
+/-- the keyword arguments as the caller holds them after a call whose material setter leaves `after` of the material argument (the
+shorthand `m` and the long name are the two places a material can be passed in) -/
+def argsAfterCall (after : Val α → Val α) (a : Args α) : Args α :=
+  a.map fun kv => if kv.1 = "material" ∨ kv.1 = "m" then (kv.1, after kv.2) else kv
 
 /-- the `adsorbate` setter: registry look-up, else a blank `Adsorbate(value)` whose constructor needs `value.lower()` -/
 def setAdsorbate (w : World α) (v : Val α) : Except CErr String :=
